@@ -449,6 +449,27 @@ def custom_sections(F):
             r.ob(touches, {"derived state": fld, "maintained by": mname, "ok": touches})
             if not touches:
                 r.violate("%s | stale %s" % (mf["path"], fld), F.loc(mf), "CustomSections::%s changes the section list but not the derived state `%s`: lookups answered from it (get_id) go stale" % (mname, fld))
+    # a component replays its custom sections at their recorded place in the section layout: every emission of a custom
+    # section in encode_comp sits in the arm of the layout dispatch for ComponentSection::CustomSection (a second emission
+    # anywhere else — "owned payloads again at the end" — duplicates sections)
+    ec = F.one_fn(name="encode_comp", self_adt="Component")
+    r.analysed.append(ec["path"])
+    arms_cs = []
+    for m_ in walk(ec["body"]):
+        if m_.get("k") == "Match" and "ComponentSection" in (m_.get("scrut_ty") or ""):
+            for a_ in m_["arms"]:
+                if any(v == "CustomSection" for _, v in pat_variants(a_["pat"])[0]):
+                    arms_cs.append(a_)
+    sites = [x for x in walk(ec["body"]) if x.get("k") == "Struct" and (x.get("adt") or "").startswith("wasm_encoder::") and (x.get("adt") or "").endswith("CustomSection") and "pats" not in x]
+    if not arms_cs:
+        r.undecided("encode_comp: the layout dispatch on ComponentSection was not found; emission sites of custom sections not judged")
+    else:
+        inside = {id(x) for a_ in arms_cs for x in walk(a_["body"])}
+        stray = [x for x in sites if id(x) not in inside]
+        r.ob(not stray, {"custom section emission sites in encode_comp": len(sites), "outside the layout arm": len(stray)})
+        if stray:
+            r.violate("%s | custom section emitted outside the layout" % ec["path"], F.loc(ec, stray[0]),
+                      "encode_comp emits custom sections at a second place, outside the arm that replays them at their recorded position: a section that is also in the layout (every parsed one, modified or not) is written twice")
     # new(): tuple .0 → name, .1 → data
     new = F.one_fn(name="new", self_adt="CustomSections")
     okn = False
